@@ -16,6 +16,8 @@ Denial.tla part 2: admission / expiry ORDER into the denial-proof index and the 
   -> harness/c02 TestCacheBehaviours: simulated behaviours replayed on the real
     Store.RecordDenialProof / RecordNXDomainCut / GetWithContext and on Cache.ServeDNS with
     a scripted downstream, virtual clock, same predicate.
+HashMemo.tla (checks/x02hm.py): the request-tree NSEC3 hash memo under concurrent validations -- TLC-generated schedules
+    forced on the real verifiers over one shared memo set; predicate: a denial accepted while sharing the memo is true.
 """
 import concurrent.futures
 import hashlib
@@ -23,6 +25,7 @@ import json
 import random
 
 import vf
+import x02hm
 
 MODULE = "Denial"
 SPEC = "MC_Denial.tla"
@@ -217,11 +220,16 @@ def run(ctx, replay):
     ctx.sample({"behaviour": uniq[0]})
     replay_cache(ctx, zones, uniq, ["plain", "esc"] if thorough else ["plain"], ctx.tier, timeout=2400)
 
+    # ---- part 3: the request-tree NSEC3 hash memo under concurrent validations (HashMemo.tla, checks/x02hm.py)
+    x02hm.run_tier(ctx)
+
 
 def run_replay(ctx, path):
     with open(path) as f:
         doc = json.load(f)
     rp = doc.get("replay", {})
+    if rp.get("family") in ("gated", "limiter", "free", "alone"):
+        return x02hm.replay_file(ctx, path)
     cfg = "MC_Sound_thorough.cfg" if doc.get("tier") == "thorough" else "MC_Sound_quick.cfg"
     _, zones, cases = sound(ctx, cfg, 6, 3000)
     if "steps" in rp:
